@@ -133,4 +133,33 @@ def resolve (cv : Conv) (app : List Cmd) (tokens : List Str) : Except Err (List 
       | .ok (some r) => created r
       | .ok none => .error .cannotResolve
 
+/-! ## Do two spellings of a path look up the same commands?  (executable; `Props/C03.alias_invariant`)
+
+The driver evaluates `sameLookupsB` on the tree read from the REAL application for the leading tokens
+of every generated line against their respelling (entry `c03.same`). -/
+
+/-- the key of `_commands` under which `CommandCollection.get` finds `name`: the name itself, or
+the target of the alias -/
+def Coll.key? (c : Coll) (name : Str) : Option Str :=
+  match dictGet? name c.cmds with
+  | some _ => some name
+  | none =>
+    match dictGet? name c.aliasIdx with
+    | some n => if dictHas n c.cmds then some n else none
+    | none => none
+
+/-- level by level, the two name lists find their command under the same key of `_commands`
+(hence the same command), down to the first name that finds nothing in both -/
+def sameLookupsB : Coll → List Str → List Str → Bool
+  | _, [], [] => true
+  | coll, n :: r, n' :: r' =>
+    match coll.key? n, coll.key? n' with
+    | none, none => true
+    | some k, some k' =>
+      k == k' && (match dictGet? k coll.cmds with
+        | some c => sameLookupsB (namedColl c.subs) r r'
+        | none => true)
+    | _, _ => false
+  | _, _, _ => false
+
 end Clikit.Resolver
